@@ -1020,6 +1020,15 @@ impl MerkleTree {
         nodes: &IntMap<Option<Node>>,
     ) -> Result<Either<Vec<StoreInfoInstruction>, ()>, HypercoreError> {
         if let Some(indexed) = indexed {
+            // The climb below ends only at an ancestor of the requested node
+            if !flat_tree::Iterator::new(root).contains(indexed.index) {
+                return Err(HypercoreError::InvalidOperation {
+                    context: format!(
+                        "Requested node {} is not under proof root {}",
+                        indexed.index, root
+                    ),
+                });
+            }
             let mut iter = flat_tree::Iterator::new(indexed.index);
             let mut instructions: Vec<StoreInfoInstruction> = Vec::new();
             let mut p_nodes: Vec<Node> = Vec::new();
